@@ -98,6 +98,117 @@ def rule_panic_census(ctx, entries=C08_ENTRIES, cfg='prod-all', with_serde=True,
              fact={'functions': len(reach), 'sites': n_sites, 'entry_points': len(eps)}, expected='>= %d functions' % min_functions, nontrivial=False)
 
 
+def _bound_up_the_chain(za, fr, arg_op, bi):
+    """upper bound of an integer operand of frame fr at block bi; while the operand is just a parameter of the frame, continue with the
+    argument the caller passes and ask for its bound at the caller's call site"""
+    f, call_bi = fr, bi
+    ub = 2 ** 64 - 1
+    for _ in range(12):
+        zf = za.zf(f.path)
+        za.summary(f.path)
+        term = zf.term_op(arg_op)
+        ub = zf.upper_bound(term, call_bi)
+        if ub <= 2 ** 63 or term is None or f.parent is None:
+            break
+        sym = term[0]
+        if sym is None or not (sym.startswith('p') and sym[1:].isdigit()) or f.body.kind == 'Closure':
+            break
+        k = int(sym[1:])
+        pc = f.call
+        if pc is None or k - 1 >= len(pc['args']):
+            break
+        arg_op = pc['args'][k - 1]
+        call_bi = next((b for b, tt in f.parent.body.calls() if tt is pc), call_bi)
+        f = f.parent
+    return ub
+
+
+def rule_work_bounded(ctx, entries=C08_ENTRIES, cfg='prod-all', rule='RF-F'):
+    """the trip count of every counting loop (`for i in a..b`, `(a..b).map(..)`) reachable from an entry point is bounded by the size of the
+    inputs: its end bound depends on lengths and constants only, or on a numeric parameter that a comparison bounds by lengths before the loop.
+    (Loops over a slice / Vec are bounded by that container; library loops are trusted.)"""
+    prog, eng = ctx.prog(cfg), ctx.eng(cfg)
+    za = ctx.zone(cfg)
+    n = 0
+    for ep in entry_paths(prog, entries):
+        ebody = prog.bodies[ep]
+        seen = set()
+        cnt = {}
+        for fr in walk(eng, ep):
+            zf = za.zf(fr.path)
+            for bi, blk in enumerate(fr.body.blocks):
+                if blk['cleanup']:
+                    continue
+                cands = [s for s in blk['stmts'] if s['k'] == 'assign' and s['rv']['k'] == 'agg' and s['rv'].get('name') in ('std::ops::Range', 'std::ops::RangeInclusive')]
+                t = blk['term']
+                if t['k'] == 'call' and (t.get('callee') or '').endswith('RangeInclusive::<Idx>::new') and len(t['args']) == 2 and not t['dst'].get('p'):
+                    cands.append({'k': 'assign', 'dst': t['dst'], 'rv': {'k': 'agg', 'name': 'std::ops::RangeInclusive', 'ops': t['args']}, 'line': t.get('line')})
+                for s in cands:
+                    ty = fr.body.local_ty(s['dst']['l'])
+                    if not ty.startswith(('std::ops::Range<u', 'std::ops::RangeInclusive<u')) or len(s['rv']['ops']) != 2:
+                        continue
+                    if not _is_iterated(fr.body, fr.fd, s['dst']['l']):
+                        continue          # a range used for slicing is bounded by the slice (bounds census)
+                    end = s['rv']['ops'][1]
+                    key = '%s#work:%s L%s' % (ep, fr.path.split('::')[-1], s.get('line'))
+                    if key in seen:
+                        continue
+                    seen.add(key)
+                    n += 1
+                    atoms = fr.lift(fr.fd.read_op(end))
+                    bare = [a for a in atoms if a[0] == 'p' and ebody.local_ty(a[1]).replace('std::option::Option<', '').rstrip('>') in ('usize', 'u64', 'u32')]
+                    ok, bound = True, None
+                    if bare:
+                        bound = _bound_up_the_chain(za, fr, end, bi)
+                        ok = bound <= 2 ** 63
+                    cnt[fr.path] = cnt.get(fr.path, 0) + 1
+                    yield Ob(rule, '%s#work:%s[%d]' % (ep, fr.path.split('::')[-1], cnt[fr.path]), ok,
+                             'the number of iterations of a counting loop is bounded by the size of the inputs', '%s L%s' % (fr.body.file(), s.get('line')),
+                             fact={'range': _range_desc(zf, s), 'end_depends_on': fmt_atoms(ebody, atoms)[:10], 'bare_numeric_params': fmt_atoms(ebody, bare), 'proved_upper_bound': bound},
+                             expected='lengths and constants only, or a numeric parameter bounded by them before the loop')
+    yield Ob(rule, 'census#counting-loops', n >= 10, 'counting loops reachable from the entry points examined', '', fact=n, expected='>= 10', nontrivial=False)
+    # every other loop must be an iteration (over a container or an adaptor chain): `while` / `loop` forms have no bound this rule can read
+    from census import reachable_fns
+    reach, _ = reachable_fns(eng, entry_paths(prog, entries))
+    other = []
+    n_loops = 0
+    for fn in sorted(reach):
+        b = prog.bodies[fn]
+        for h, bl in b.natural_loops():
+            n_loops += 1
+            if not any(bi in bl and (t.get('callee') or '').endswith('Iterator::next') for bi, t in b.calls()):
+                other.append('%s (loop header bb%d, L%s)' % (fn, h, b.blocks[h]['term'].get('line')))
+    yield Ob(rule, 'census#loop-forms', None if other else True,
+             'every loop reachable from the entry points is driven by an iterator (range, container, adaptor chain); other loop forms are listed as undecided', '',
+             fact={'loops': n_loops, 'not_iterator_driven': other[:8]}, expected='none', nontrivial=False)
+
+
+def _range_desc(zf, s):
+    from zone import tfmt
+    a, b = zf.term_op(s['rv']['ops'][0]), zf.term_op(s['rv']['ops'][1])
+    return '%s..%s' % (tfmt(a), tfmt(b))
+
+
+def _is_iterated(body, fd, l, depth=0):
+    """is the range held in local l (or a move of it) consumed as an iterator (into_iter / next / an adaptor), rather than used as an index?"""
+    if depth > 4:
+        return False
+    for bi, t in body.calls():
+        for k, a in enumerate(t['args']):
+            if a['k'] in ('copy', 'move') and a['pl']['l'] == l and not a['pl'].get('p'):
+                cal = t.get('callee') or ''
+                if cal.startswith(('std::iter::', 'core::iter::')):
+                    return True
+                if cal in ('std::ops::Index::index', 'std::ops::IndexMut::index_mut') or '::get' in cal or 'slice' in cal:
+                    return False
+    for bi, s in body.stmts():
+        if s['k'] == 'assign' and s['rv']['k'] == 'use' and s['rv']['op']['k'] in ('copy', 'move') and s['rv']['op']['pl']['l'] == l \
+                and not s['rv']['op']['pl'].get('p') and not s['dst'].get('p'):
+            if _is_iterated(body, fd, s['dst']['l'], depth + 1):
+                return True
+    return False
+
+
 # ---------------------------------------------------------------------- allocation / work clause
 SIZE_SITES = {
     'bbsplus::generators::Generators::create': 0,
